@@ -1648,14 +1648,44 @@ func emptinessOf(t Term) (Term, bool, bool) {
 	return X, whenEmpty == pol, true
 }
 
-// emptyGuardNorm (N6) removes a redundant fast path for the empty collection: `if len(xs) == 0 { return V }` in front of a loop over
-// xs whose exhausted exit returns the same V without having done anything. With nothing to visit the general path does exactly
-// that, so the guard decides nothing; it is dropped from the paths and the fast path with it.
+// eraseEpochs: the term with its memory stamps removed (for comparing what two paths denote when nothing was written in between).
+func eraseEpochs(t Term) Term {
+	return mapBU(t, func(u Term) Term {
+		switch x := u.(type) {
+		case TSel:
+			x.Epoch = 0
+			return x
+		case TIndex:
+			x.Epoch = 0
+			return x
+		case TSlice:
+			x.Epoch = 0
+			return x
+		case TCall:
+			x.Epoch = 0
+			return x
+		case TBuiltin:
+			if x.Epoch > 0 {
+				x.Epoch = 0
+			}
+			return x
+		case TDeref:
+			x.Epoch = 0
+			return x
+		}
+		return u
+	})
+}
+
+// emptyGuardNorm (N6) removes a redundant fast path in front of a loop: `if len(xs) == 0 { return V }` (or `if count < 2 { return V }`
+// before a loop of count/2 rounds) when the general path, with the loop running zero times, returns the same V having done nothing.
+// Whenever the guard sends a call down the fast path the loop would not have run (folded for sizes 0..9 and a large one), so the
+// guard decides nothing; it is dropped from the paths and the fast path with it.
 func (v *sxView) emptyGuardNorm(paths []*Path) []*Path {
 	for round := 0; round < 3; round++ {
 		changed := false
 		for fi, pf := range paths {
-			// a candidate fast path: conditions only, the last of them an emptiness test that holds for the empty collection
+			// a candidate fast path: conditions only
 			if pf.End != "return" && pf.End != "panic" {
 				continue
 			}
@@ -1671,19 +1701,45 @@ func (v *sxView) emptyGuardNorm(paths []*Path) []*Path {
 			if !onlyConds || gi < 0 {
 				continue
 			}
-			X, emptyWhenTrue, ok := emptinessOf(pf.Steps[gi].Cond.T)
-			if !ok || emptyWhenTrue != pf.Steps[gi].Cond.Truth {
+			G := pf.Steps[gi].Cond
+			// the size the guard talks about: the receiver's count, or len(X) of one collection X
+			var X Term
+			recvCount, sizeOK := false, true
+			collectSubterms(G.T, func(u Term) {
+				switch {
+				case v.isCountOfRecv(u):
+					recvCount = true
+				default:
+					if bl, ok := u.(TBuiltin); ok && bl.Name == "len" && len(bl.Args) == 1 {
+						if v.isRecvSpine(bl.Args[0]) {
+							recvCount = true
+						} else if X == nil {
+							X = bl.Args[0]
+						} else if !sameTerm(eraseEpochs(X), eraseEpochs(bl.Args[0])) {
+							sizeOK = false
+						}
+					}
+				}
+			})
+			if !sizeOK || (recvCount == (X != nil)) {
 				continue
 			}
-			G := pf.Steps[gi].Cond
+			isSize := func(u Term) bool {
+				if recvCount {
+					if v.isCountOfRecv(u) {
+						return true
+					}
+					bl, ok := u.(TBuiltin)
+					return ok && bl.Name == "len" && len(bl.Args) == 1 && v.isRecvSpine(bl.Args[0])
+				}
+				bl, ok := u.(TBuiltin)
+				return ok && bl.Name == "len" && len(bl.Args) == 1 && sameTerm(eraseEpochs(bl.Args[0]), eraseEpochs(X))
+			}
 			// the slow paths: same prefix, the guard decided the other way
 			var slow []int
 			good := true
 			for i, p := range paths {
-				if i == fi {
-					continue
-				}
-				if len(p.Steps) <= gi {
+				if i == fi || len(p.Steps) <= gi {
 					continue
 				}
 				same := true
@@ -1697,12 +1753,8 @@ func (v *sxView) emptyGuardNorm(paths []*Path) []*Path {
 					continue
 				}
 				s := p.Steps[gi]
-				if s.Kind != "cond" || !sameTerm(s.Cond.T, G.T) {
-					good = false // the guard is not decided at the same place on a path with the same prefix
-					break
-				}
-				if s.Cond.Truth == G.Truth {
-					good = false // a second path for the empty collection
+				if s.Kind != "cond" || !sameTerm(s.Cond.T, G.T) || s.Cond.Truth == G.Truth {
+					good = false
 					break
 				}
 				slow = append(slow, i)
@@ -1710,7 +1762,7 @@ func (v *sxView) emptyGuardNorm(paths []*Path) []*Path {
 			if !good || len(slow) == 0 {
 				continue
 			}
-			// the exhausted exit among them: guard, loop over X with zero iterations possible, nothing else
+			// the exhausted exit among them: guard, one loop, nothing else — and the same result
 			exhausted := -1
 			for _, i := range slow {
 				p := paths[i]
@@ -1719,40 +1771,77 @@ func (v *sxView) emptyGuardNorm(paths []*Path) []*Path {
 					continue
 				}
 				l := rest[0].Loop
-				over := false
-				switch {
-				case l.Range != nil:
-					over = sameTerm(l.Over, X)
-				case l.For != nil && l.CondT != nil:
-					if b, ok := l.CondT.(TBin); ok && b.Op == token.LSS {
-						if lv, ok := b.X.(TLoop); ok && lv.ID == l.ID {
-							if k, ok := constInt(l.Init[lv.Obj]); ok && k == 0 {
-								if bl, ok := b.Y.(TBuiltin); ok && bl.Name == "len" && len(bl.Args) == 1 && sameTerm(bl.Args[0], X) {
-									over = true
-								}
+				if p.End != pf.End || len(p.Vals) != len(pf.Vals) {
+					continue
+				}
+				// whenever the guard holds the loop does not run
+				implied, taken := true, 0
+				for _, n := range []int64{0, 1, 2, 3, 4, 5, 6, 7, 8, 9, 1 << 20} {
+					hook := func(u Term) (int64, bool) {
+						if isSize(u) {
+							return n, true
+						}
+						if lv, ok := u.(TLoop); ok && lv.ID == l.ID {
+							if init, has := l.Init[lv.Obj]; has {
+								e := &termEnv{hook: func(w Term) (int64, bool) {
+									if isSize(w) {
+										return n, true
+									}
+									return 0, false
+								}}
+								return e.int(init)
 							}
 						}
+						return 0, false
+					}
+					e := &termEnv{hook: hook}
+					g, ok := e.bool(G.T)
+					if !ok {
+						implied = false
+						break
+					}
+					if g != G.Truth {
+						continue
+					}
+					taken++
+					runs := true
+					switch {
+					case l.Range != nil:
+						over := (recvCount && v.isRecvSpine(l.Over)) || (!recvCount && sameTerm(eraseEpochs(l.Over), eraseEpochs(X)))
+						if !over {
+							implied = false
+						}
+						runs = n > 0
+					case l.For != nil && l.CondT != nil:
+						e2 := &termEnv{hook: hook}
+						c0, ok := e2.bool(l.CondT)
+						if !ok {
+							implied = false
+						}
+						runs = c0
+					default:
+						implied = false
+					}
+					if !implied || runs {
+						implied = false
+						break
 					}
 				}
-				if !over || p.End != pf.End || len(p.Vals) != len(pf.Vals) {
+				if !implied || taken == 0 {
 					continue
 				}
 				eq := true
 				for k := range p.Vals {
-					a, b := simplify(p.Vals[k]), simplify(pf.Vals[k])
-					if !sameTerm(a, b) {
-						// the loop's variables keep their initial values when nothing was visited
-						a = simplify(mapTerm(a, func(t Term) (Term, bool) {
-							if lv, ok := t.(TLoop); ok && lv.ID == l.ID {
-								if init, has := l.Init[lv.Obj]; has {
-									return init, true
-								}
+					a := simplify(mapTerm(p.Vals[k], func(t Term) (Term, bool) {
+						if lv, ok := t.(TLoop); ok && lv.ID == l.ID {
+							if init, has := l.Init[lv.Obj]; has {
+								return init, true // nothing was visited: the loop's variables keep their initial values
 							}
-							return nil, false
-						}))
-						if !sameTerm(a, b) {
-							eq = false
 						}
+						return nil, false
+					}))
+					if !sameTerm(eraseEpochs(a), eraseEpochs(simplify(pf.Vals[k]))) {
+						eq = false
 					}
 				}
 				if eq {
@@ -1791,6 +1880,7 @@ func (v *sxView) emptyGuardNorm(paths []*Path) []*Path {
 	}
 	return paths
 }
+
 
 // ---------------------------------------------------------------- shrinking windows
 //
